@@ -1849,7 +1849,7 @@ func runC10(c *Ctx) {
 	r.Assume("rack, cluster_name and schema_version are not fixed by the property: any non-empty text / any uuid; native_protocol_version only has to name the negotiated version")
 	r.Assume("names and the integer type of count(...)/now() result columns are not fixed by the property; an alias on a function result is an observation only")
 	r.Assume("peer lists with data centers for only SOME entries: per-instance model only (missing ones default to each instance's own data center, so instances legitimately differ)")
-	r.Require("configurations", "selector_lists", "cells_decoded", "query_results_checked", "prepare_execute_checked", "instances_compared", "restarts_compared", "now_cells_checked", "count_cells_checked")
+	r.Require("configurations", "selector_lists", "cells_decoded", "query_results_checked", "prepare_execute_checked", "instances_compared", "restarts_compared", "now_cells_checked", "count_cells_checked", "no_rpc_address_reads")
 
 	nCfg := c.Pick(200, 60000)
 	nLists := 30
@@ -1869,7 +1869,99 @@ func runC10(c *Ctx) {
 	c.Parallel(nCfg, 3, func(i int) {
 		c10RunConfig(c, c10GenCfg(c.Rng(i), i), nLists)
 	})
+	if c.Replay == nil {
+		c.Parallel(c.Pick(12, 600), 3, func(i int) { c10NoRPCAddress(c, i) })
+	}
 	c10ProbeParent(c)
 	r.Extra["configurations_total"] = nCfg
 	r.Extra["selector_lists_per_configuration"] = nLists
+}
+
+// c10NoRPCAddress: without a configured rpc-address the proxy describes itself by the local address of the client's
+// connection: each client, whichever address it dialled and in whatever order clients arrive, reads its own address as
+// rpc_address and the version-3 UUID of THAT address as host_id.
+func c10NoRPCAddress(c *Ctx, idx int) {
+	r := c.R
+	rng := c.Rng(660000 + idx)
+	c.Step("c10 no rpc-address idx=%d", idx)
+	bed, err := px.NewBed(px.BedConfig{Hosts: 1, NumConns: 1, Keyspaces: []string{"ks1"}, ListenWildcard: true})
+	if err != nil {
+		r.Inconc("c10 no-rpc-address: cannot start bed: " + err.Error())
+		return
+	}
+	defer bed.Close()
+	_, port, _ := net.SplitHostPort(bed.Addr)
+	var order []string
+	for k := 0; k < 5; k++ {
+		order = append(order, fmt.Sprintf("127.0.%d.%d", rng.Intn(3), 1+rng.Intn(4)))
+	}
+	idOf, addrOf := map[string]string{}, map[string]string{}
+	for k, ip := range order {
+		cl, err := rawcql.Dial(net.JoinHostPort(ip, port), primitive.ProtocolVersion4, bed.Log)
+		if err != nil {
+			r.Inconc("c10 no-rpc-address: dial " + ip + ": " + err.Error())
+			return
+		}
+		if err := cl.Handshake("", 10*time.Second); err != nil {
+			cl.Close()
+			r.Inconc("c10 no-rpc-address: handshake: " + err.Error())
+			return
+		}
+		for qi, q := range []string{"SELECT rpc_address, host_id FROM system.local", "SELECT * FROM system.local"} {
+			f, err := cl.Call(int16(1+qi), &message.Query{Query: q, Options: &message.QueryOptions{Consistency: primitive.ConsistencyLevelOne}}, 10*time.Second)
+			if err != nil {
+				r.Inconc("c10 no-rpc-address: no reply")
+				cl.Close()
+				return
+			}
+			fr, derr := rawcql.DecodeWith("", f)
+			rows, ok := (message.Message)(nil), false
+			if derr == nil {
+				rows, ok = fr.Body.Message.(*message.RowsResult)
+			}
+			r.Eval(1)
+			if !ok {
+				r.Violate(mon.Violation{Signature: "C10/no-rpc-address/not-rows", Detail: fmt.Sprintf("%q answered %v", q, derr), Scenario: map[string]interface{}{"kind": "c10-no-rpc-address", "idx": idx}})
+				cl.Close()
+				return
+			}
+			rr := rows.(*message.RowsResult)
+			var gotAddr net.IP
+			var gotID []byte
+			if len(rr.Data) == 1 {
+				for ci, col := range rr.Metadata.Columns {
+					switch col.Name {
+					case "rpc_address":
+						gotAddr = net.IP(rr.Data[0][ci])
+					case "host_id":
+						gotID = rr.Data[0][ci]
+					}
+				}
+			}
+			r.Obs("no_rpc_address_reads", 1)
+			bad := ""
+			var id16 [16]byte
+			copy(id16[:], gotID)
+			switch {
+			case gotAddr == nil || !gotAddr.Equal(net.ParseIP(ip)):
+				bad = "rpc_address is not the address the client dialled"
+			case len(gotID) != 16 || model.CheckHostIDShape(id16) != "":
+				bad = "host_id is not a version-3 UUID"
+			case idOf[ip] != "" && idOf[ip] != string(gotID):
+				bad = "host_id of this address differs from the one an earlier client read"
+			case addrOf[string(gotID)] != "" && addrOf[string(gotID)] != ip:
+				bad = "host_id equals the one read for another address (" + addrOf[string(gotID)] + ")"
+			}
+			if bad != "" {
+				r.Violate(mon.Violation{Signature: "C10/no-rpc-address/local-row-not-of-this-connection",
+					Detail:   fmt.Sprintf("no rpc-address configured; client #%d dialled %s (clients so far: %v): %q returned rpc_address %v host_id %x: %s", k+1, ip, order[:k+1], q, gotAddr, gotID, bad),
+					Scenario: map[string]interface{}{"kind": "c10-no-rpc-address", "idx": idx}})
+				cl.Close()
+				return
+			}
+			idOf[ip], addrOf[string(gotID)] = string(gotID), ip
+		}
+		cl.Close()
+	}
+	r.NonTrivial(fmt.Sprintf("no-rpc-address/%v", order))
 }
